@@ -439,6 +439,7 @@ pub fn run(args: &Args) {
 	part_semi(&mut s, &mut r, args);
 	let covered = crate::c07::part_b(&mut s, &mut r, args);
 	part_x(&mut s, &mut r, args);
+	part_d(&mut s, args);
 	part_stress(&mut s, args);
 	let in_repo = kinds_in_repo();
 	let uncovered: Vec<String> = in_repo.iter().filter(|k| !covered.contains(*k)).cloned().collect();
@@ -1427,7 +1428,8 @@ enum Cmd {
 	Volume(i64),
 	Rate(i64),
 	Pan(i64),
-	Loop(i64),
+	/// loop region in whole seconds; `Loop(0, 0)`: none
+	Loop(i64, i64),
 	Pause(i64),
 	Resume(i64),
 	ResumeAt(i64),
@@ -1451,7 +1453,7 @@ impl Cmd {
 			Cmd::Volume(_) => (2, 0),
 			Cmd::Rate(_) => (2, 1),
 			Cmd::Pan(_) => (2, 2),
-			Cmd::Loop(_) => (2, 3),
+			Cmd::Loop(..) => (2, 3),
 			Cmd::Pause(_) => (2, 4),
 			Cmd::Resume(_) | Cmd::ResumeAt(_) => (2, 5),
 			Cmd::Stop(_) => (2, 6),
@@ -1464,7 +1466,8 @@ impl Cmd {
 		match *self {
 			Cmd::Pause(i) | Cmd::Resume(i) | Cmd::Stop(i) | Cmd::TPause(i) | Cmd::TResume(i) => (LONG_NS + i, 0),
 			Cmd::ResumeAt(i) | Cmd::TResumeAt(i) => (LONG_NS + i, LONG_NS),
-			Cmd::Volume(i) | Cmd::Rate(i) | Cmd::Pan(i) | Cmd::Loop(i) | Cmd::SeekBy(i) | Cmd::SeekTo(i) | Cmd::TVolume(i) | Cmd::MainVolume(i) => (i, 0),
+			Cmd::Loop(a, b) => (a, b),
+			Cmd::Volume(i) | Cmd::Rate(i) | Cmd::Pan(i) | Cmd::SeekBy(i) | Cmd::SeekTo(i) | Cmd::TVolume(i) | Cmd::MainVolume(i) => (i, 0),
 		}
 	}
 }
@@ -1506,7 +1509,13 @@ impl SndH {
 			Cmd::Volume(i) => both!(h, h.set_volume(db_of(i), ZERO_TWEEN)),
 			Cmd::Rate(i) => both!(h, h.set_playback_rate(PlaybackRate(0.5 + (i % 3) as f64 * 0.5), ZERO_TWEEN)),
 			Cmd::Pan(i) => both!(h, h.set_panning(Panning(((i % 5) as f32 - 2.0) / 2.0), ZERO_TWEEN)),
-			Cmd::Loop(i) => both!(h, h.set_loop_region((40.0 + (i % 3) as f64)..(45.0 + (i % 3) as f64))),
+			Cmd::Loop(a, b) => {
+				if b > a {
+					both!(h, h.set_loop_region(a as f64..b as f64))
+				} else {
+					both!(h, h.set_loop_region(None::<kira::sound::Region>))
+				}
+			}
 			Cmd::Pause(i) => both!(h, h.pause(long_tween(i))),
 			Cmd::Resume(i) => both!(h, h.resume(long_tween(i))),
 			Cmd::ResumeAt(i) => both!(h, h.resume_at(StartTime::Delayed(Duration::from_nanos(LONG_NS as u64)), long_tween(i))),
@@ -1561,7 +1570,7 @@ impl World {
 	fn cb(&mut self) -> Vec<f32> {
 		self.mgr.backend_mut().callback(CB_FRAMES, 2)
 	}
-	fn build(ctx: Ctx, stream: bool, start_delay: Option<Duration>) -> World {
+	fn build(ctx: Ctx, stream: bool, start_delay: Option<Duration>, loop0: Option<(i64, i64)>) -> World {
 		let mut mgr = simple_manager(SR, IBS);
 		let mut ptrk = None;
 		let mut trk = None;
@@ -1593,7 +1602,10 @@ impl World {
 				None => mgr.play(data).unwrap(),
 			})
 		} else {
-			let data = cached_indexed().start_time(st);
+			let mut data = cached_indexed().start_time(st);
+			if let Some((a, b)) = loop0 {
+				data = data.loop_region(a as f64..b as f64);
+			}
 			SndH::Static(match trk.as_mut() {
 				Some(t) => t.play(data).unwrap(),
 				None => mgr.play(data).unwrap(),
@@ -1664,8 +1676,8 @@ struct XObs {
 type Hist = Vec<Vec<Cmd>>;
 
 /// the run as issued: every interval's commands, then one callback
-fn run_joint(ctx: Ctx, stream: bool, hist: &Hist) -> (i128, i128, Vec<XObs>) {
-	let mut w = World::build(ctx, stream, None);
+fn run_joint(ctx: Ctx, stream: bool, hist: &Hist, loop0: Option<(i64, i64)>) -> (i128, i128, Vec<XObs>) {
+	let mut w = World::build(ctx, stream, None, loop0);
 	let start = (w.tstate(), w.snd.state());
 	let mut obs = vec![];
 	for iv in hist {
@@ -1680,8 +1692,8 @@ fn run_joint(ctx: Ctx, stream: bool, hist: &Hist) -> (i128, i128, Vec<XObs>) {
 /// the twin: within an interval the commands are handed over one (resource, kind) at a time in the
 /// order in which `on_start_processing` visits them, each followed by its own `on_start_processing`;
 /// one `process` per interval
-fn run_split(ctx: Ctx, stream: bool, hist: &Hist) -> Vec<XObs> {
-	let mut w = World::build(ctx, stream, None);
+fn run_split(ctx: Ctx, stream: bool, hist: &Hist, loop0: Option<(i64, i64)>) -> Vec<XObs> {
+	let mut w = World::build(ctx, stream, None, loop0);
 	let mut obs = vec![];
 	for iv in hist {
 		let mut slots: Vec<(u8, usize)> = iv.iter().map(|c| c.slot()).collect();
@@ -1757,17 +1769,58 @@ struct XOpts {
 	twin: bool,
 	/// the position (whole seconds) is part of the model case
 	pos: bool,
+	/// loop region (whole seconds) of the static sound's settings
+	loop0: Option<(i64, i64)>,
+}
+/// Rust mirror of `Transport` (C04/Transport.v) as far as seeks and loop regions go
+#[derive(Clone, Copy, Debug)]
+struct Tr {
+	pos: i64,
+	lp: Option<(i64, i64)>,
+}
+impl Tr {
+	fn new(pos: i64, lp: Option<(i64, i64)>) -> Tr {
+		Tr { pos, lp: lp.filter(|(a, b)| b > a) }
+	}
+	fn set_loop(&mut self, lp: Option<(i64, i64)>) {
+		self.lp = lp.filter(|(a, b)| b > a);
+	}
+	fn seek(&mut self, mut p: i64) {
+		if let Some((ls, le)) = self.lp {
+			if p > self.pos {
+				while p >= le {
+					p -= le - ls;
+				}
+			} else {
+				while p < ls {
+					p += le - ls;
+				}
+			}
+		}
+		self.pos = p;
+	}
+	fn wrap(&mut self) {
+		if let Some((ls, le)) = self.lp {
+			while self.pos >= le {
+				self.pos -= le - ls;
+			}
+		}
+	}
+	fn inc(&mut self) {
+		self.pos += 1;
+		self.wrap();
+	}
 }
 /// runs one history on the real code and evaluates every monitor; `hist` should end with at least
 /// one quiet interval (the position of callback j is read after callback j+1)
 fn check_hist(s: &mut Session, kind: &str, ctx: Ctx, stream: bool, hist: &Hist, o: &XOpts) {
 	let desc = hist_text(ctx, stream, hist);
-	let (t0, s0, a) = run_joint(ctx, stream, hist);
+	let (t0, s0, a) = run_joint(ctx, stream, hist, o.loop0);
 	let n = hist.len();
 	// X-mirror
 	let mut st = s0;
 	let mut tt = t0;
-	let mut pos: i128 = 0;
+	let mut tr = Tr::new(0, o.loop0);
 	let mut heard: i128 = 0;
 	let mut want_s = vec![];
 	let mut want_t = vec![];
@@ -1777,15 +1830,20 @@ fn check_hist(s: &mut Session, kind: &str, ctx: Ctx, stream: bool, hist: &Hist, 
 		if ctx.has_track() {
 			tt = mirror_psm(tt, iv, 1);
 		}
-		// seeks, in the code's order: seek_by then seek_to, last of each kind
+		// the transport kinds, in the code's order: loop region, (playback state,) seek_by, seek_to;
+		// the last of each kind; a seek is wrapped into the region then in force
+		if let Some(Cmd::Loop(a, b)) = iv.iter().rev().find(|c| matches!(c, Cmd::Loop(..))) {
+			tr.set_loop(Some((*a, *b)));
+		}
 		if let Some(Cmd::SeekBy(x)) = iv.iter().rev().find(|c| matches!(c, Cmd::SeekBy(_))) {
-			pos += *x as i128;
+			tr.seek(tr.pos + *x);
 		}
 		if let Some(Cmd::SeekTo(x)) = iv.iter().rev().find(|c| matches!(c, Cmd::SeekTo(_))) {
-			pos = *x as i128;
+			tr.seek(*x);
 		}
 		if advancing(st) {
-			heard = pos;
+			tr.wrap();
+			heard = tr.pos as i128;
 		}
 		want_s.push(st);
 		want_t.push(tt);
@@ -1824,7 +1882,7 @@ fn check_hist(s: &mut Session, kind: &str, ctx: Ctx, stream: bool, hist: &Hist, 
 				bad = true;
 				s.fail(
 					desc.clone(),
-					format!("X-mirror: the position reported after callback {} is {:.3} s; the seeks applied once each (seek_by then seek_to, last of each kind per interval) put the sound at {} s (+ at most 0.4 s of playback)", j + 2, a[j + 1].pos, want_h[j]),
+					format!("X-mirror: the position reported after callback {} is {:.3} s; the loop region, seek_by and seek_to commands applied once each in this order (last of each kind per interval; a seek wraps into the region then in force) put the sound at {} s (+ at most 0.4 s of playback)", j + 2, a[j + 1].pos, want_h[j]),
 					None,
 				);
 			}
@@ -1841,7 +1899,7 @@ fn check_hist(s: &mut Session, kind: &str, ctx: Ctx, stream: bool, hist: &Hist, 
 	}
 	// X-twin
 	if o.twin {
-		let e = run_split(ctx, stream, hist);
+		let e = run_split(ctx, stream, hist, o.loop0);
 		for j in 0..n {
 			let same_state = a[j].snd == e[j].snd && a[j].trk == e[j].trk;
 			// (the reported position is refreshed by every on_start_processing, BEFORE the commands are
@@ -1870,7 +1928,7 @@ fn check_hist(s: &mut Session, kind: &str, ctx: Ctx, stream: bool, hist: &Hist, 
 	}
 	// X-model
 	let (rk, start, hm): (u8, i128, Hist) = if o.pos {
-		(1, s0, hist[..n - 1].to_vec())
+		(1, s0 + 10 * o.loop0.map(|(a, b)| (a + 100 * b) as i128).unwrap_or(0), hist[..n - 1].to_vec())
 	} else if ctx.has_track() {
 		(4, t0 * 10 + s0, hist.clone())
 	} else if stream {
@@ -1887,8 +1945,8 @@ fn check_hist(s: &mut Session, kind: &str, ctx: Ctx, stream: bool, hist: &Hist, 
 fn check_track_hist(s: &mut Session, kind: &str, paused: bool, hist: &Hist) {
 	let ctx = if paused { Ctx::SubPaused } else { Ctx::Sub };
 	let desc = format!("sub-track ({}), per interval: {:?}", if paused { "paused" } else { "playing" }, hist);
-	let (t0, _s0, a) = run_joint(ctx, false, hist);
-	let e = run_split(ctx, false, hist);
+	let (t0, _s0, a) = run_joint(ctx, false, hist, None);
+	let e = run_split(ctx, false, hist, None);
 	let mut tt = t0;
 	let mut want = vec![];
 	for iv in hist {
@@ -1920,7 +1978,7 @@ fn part_x_abs(s: &mut Session) {
 			// (1) a playback-state command reaches the sound at the next callback
 			for (c, want) in [(Cmd::Stop(1), 5), (Cmd::Pause(2), 1), (Cmd::Resume(3), 4), (Cmd::ResumeAt(4), 3)] {
 				for idle in [0usize, 1, 3] {
-					let mut w = World::build(ctx, stream, None);
+					let mut w = World::build(ctx, stream, None, None);
 					for _ in 0..idle {
 						w.cb();
 					}
@@ -1954,7 +2012,7 @@ fn part_x_abs(s: &mut Session) {
 			for (name, prog, amount, relative) in progs.iter() {
 				// waiting for the start time: a start time the probe can wait for
 				let delay = if ctx == Ctx::WaitStart { Some(Duration::from_millis(100)) } else { None };
-				let mut w = World::build(ctx, false, delay);
+				let mut w = World::build(ctx, false, delay, None);
 				let p0 = w.snd.position();
 				for iv in prog {
 					for c in iv {
@@ -2047,8 +2105,8 @@ impl SndH {
 fn part_x(s: &mut Session, r: &mut Rng, args: &Args) {
 	part_x_abs(s);
 	// ---- every ordered pair / triple of distinct commands in ONE interval, then quiet callbacks ----
-	let snd_cmds: Vec<Cmd> = vec![Cmd::Pause(1), Cmd::Resume(2), Cmd::ResumeAt(3), Cmd::Stop(4), Cmd::SeekBy(2), Cmd::SeekTo(20), Cmd::Volume(5), Cmd::Pan(6), Cmd::Rate(7), Cmd::Loop(8)];
-	let stream_cmds: Vec<Cmd> = snd_cmds.iter().copied().filter(|c| !matches!(c, Cmd::SeekBy(_) | Cmd::SeekTo(_) | Cmd::Loop(_))).collect();
+	let snd_cmds: Vec<Cmd> = vec![Cmd::Pause(1), Cmd::Resume(2), Cmd::ResumeAt(3), Cmd::Stop(4), Cmd::SeekBy(2), Cmd::SeekTo(20), Cmd::Volume(5), Cmd::Pan(6), Cmd::Rate(7), Cmd::Loop(40, 45)];
+	let stream_cmds: Vec<Cmd> = snd_cmds.iter().copied().filter(|c| !matches!(c, Cmd::SeekBy(_) | Cmd::SeekTo(_) | Cmd::Loop(..))).collect();
 	let tuples = |cmds: &[Cmd], triples: bool| -> Vec<Vec<Cmd>> {
 		let mut out = vec![];
 		for a in cmds {
@@ -2076,10 +2134,26 @@ fn part_x(s: &mut Session, r: &mut Rng, args: &Args) {
 			if iv.len() == 3 && state_kinds(&iv) < 2 && !args.thorough && !r.chance(1, 3) {
 				continue;
 			}
-			let pos = matches!(ctx, Ctx::Main | Ctx::MainFresh | Ctx::SelfPaused) && !iv.iter().any(|c| matches!(c, Cmd::Loop(_)));
+			let pos = matches!(ctx, Ctx::Main | Ctx::MainFresh | Ctx::SelfPaused);
 			let mut hist = vec![iv];
 			quiet(&mut hist, if pos { 5 } else { 4 });
-			check_hist(s, "x_one_interval_static", ctx, false, &hist, &XOpts { twin: true, pos });
+			check_hist(s, "x_one_interval_static", ctx, false, &hist, &XOpts { twin: true, pos, loop0: None });
+		}
+	}
+	// static sound with a loop region in force (settings): a new region and seeks in ONE interval: the
+	// seeks are wrapped into the NEW region (set_loop_region is read before the seeks)
+	let loop_cmds: Vec<Cmd> = vec![Cmd::Loop(0, 0), Cmd::Loop(1, 3), Cmd::Loop(4, 8), Cmd::Loop(10, 12), Cmd::SeekTo(5), Cmd::SeekBy(3), Cmd::Pause(1), Cmd::Volume(5)];
+	for ctx in [Ctx::Main, Ctx::MainFresh, Ctx::SelfPaused] {
+		for loop0 in [(0, 2), (2, 6)] {
+			for iv in tuples(&loop_cmds, true) {
+				let transport_kinds = iv.iter().filter(|c| matches!(c.slot(), (2, 3) | (2, 7) | (2, 8))).count();
+				if iv.len() == 3 && transport_kinds < 3 && !args.thorough && !r.chance(1, 3) {
+					continue;
+				}
+				let mut hist = vec![iv];
+				quiet(&mut hist, 5);
+				check_hist(s, "x_one_interval_static_loop", ctx, false, &hist, &XOpts { twin: true, pos: true, loop0: Some(loop0) });
+			}
 		}
 	}
 	// streaming sound: the kinds read on the audio thread
@@ -2090,7 +2164,7 @@ fn part_x(s: &mut Session, r: &mut Rng, args: &Args) {
 			}
 			let mut hist = vec![iv];
 			quiet(&mut hist, 4);
-			check_hist(s, "x_one_interval_streaming", ctx, true, &hist, &XOpts { twin: true, pos: false });
+			check_hist(s, "x_one_interval_streaming", ctx, true, &hist, &XOpts { twin: true, pos: false, loop0: None });
 		}
 	}
 	// sub-track: its own kinds; and the main track's volume / the track's kinds / the sound's kinds together
@@ -2111,7 +2185,7 @@ fn part_x(s: &mut Session, r: &mut Rng, args: &Args) {
 			}
 			let mut hist = vec![iv];
 			quiet(&mut hist, 4);
-			check_hist(s, "x_one_interval_cross_resource", ctx, false, &hist, &XOpts { twin: true, pos: false });
+			check_hist(s, "x_one_interval_cross_resource", ctx, false, &hist, &XOpts { twin: true, pos: false, loop0: None });
 		}
 	}
 	// ---- random histories over several intervals, every context -------------------------------------
@@ -2130,7 +2204,7 @@ fn part_x(s: &mut Session, r: &mut Rng, args: &Args) {
 					let mut iv = vec![];
 					for _ in 0..k {
 						id += 1;
-						let c = match r.below(if stream { 7 } else if pos { 9 } else { 10 }) {
+						let c = match r.below(if stream { 7 } else { 10 }) {
 							0 => Cmd::Pause(id),
 							1 => Cmd::Resume(id),
 							2 => Cmd::ResumeAt(id),
@@ -2144,7 +2218,7 @@ fn part_x(s: &mut Session, r: &mut Rng, args: &Args) {
 								Cmd::SeekBy(a)
 							}
 							8 => Cmd::SeekTo(r.range(1, 4) * 10),
-							_ => Cmd::Loop(id),
+							_ => *r.pick(&[Cmd::Loop(0, 0), Cmd::Loop(1, 3), Cmd::Loop(4, 8), Cmd::Loop(15, 25), Cmd::Loop(30, 50)]),
 						};
 						iv.push(c);
 						if ctx.has_track() && r.chance(1, 4) {
@@ -2156,8 +2230,302 @@ fn part_x(s: &mut Session, r: &mut Rng, args: &Args) {
 				}
 				let _ = total_seek; // at most 6 intervals * 4 commands * 3 s after a seek_to(40): inside the 60 s sound
 				quiet(&mut hist, if pos { 2 } else { 1 });
-				check_hist(s, if stream { "x_random_streaming" } else { "x_random_static" }, ctx, stream, &hist, &XOpts { twin: true, pos });
+				let loop0 = if stream { None } else { *r.pick(&[None, None, Some((0, 2)), Some((2, 6))]) };
+				check_hist(s, if stream { "x_random_streaming" } else { "x_random_static" }, ctx, stream, &hist, &XOpts { twin: true, pos, loop0 });
 			}
+		}
+	}
+}
+
+// ------------------------------------------------------------------------------------------
+// (d) the decoder-side kinds of a streaming sound (model: Multi.v `dec_apply`, case `CDec`)
+// ------------------------------------------------------------------------------------------
+// The decoder thread is paced through its own decoder: `decode()` returns one frame per call and
+// blocks on a condvar until the harness grants it a permit, so the thread is parked in the middle of
+// a step of `DecodeScheduler::run`, AFTER that step looked for commands.  Commands issued while it is
+// parked are all found by the next step.  No audio callback runs before the end, so the ring is never
+// full and `shared.position()` (the base of seek_by) is the start position.  The frames are
+// index-coded: the frames heard at the end ARE the sequence of indices the steps pushed.
+//   D-model   that sequence vs the Coq model (`CDec`);
+//   D-mirror  vs the Rust mirror: per step the last set_loop_region, then the last seek_by, then the
+//             last seek_to (each wrapped into the region then in force, i.e. the new one), push,
+//             increment;
+//   D-twin    the tail after the command step equals the tail of the twin in which the same commands
+//             are handed over one kind per decoder step, in the code's order.
+struct DGateSt {
+	permits: usize,
+	parked: bool,
+}
+struct DGate {
+	st: std::sync::Mutex<DGateSt>,
+	cv: std::sync::Condvar,
+}
+impl DGate {
+	/// lets the decoder make `k` more `decode()` calls and waits until it is parked again
+	fn grant_and_wait(&self, k: usize) -> bool {
+		let mut st = self.st.lock().unwrap();
+		st.permits += k;
+		self.cv.notify_all();
+		let deadline = std::time::Instant::now() + Duration::from_secs(20);
+		while !(st.permits == 0 && st.parked) {
+			let (g, _) = self.cv.wait_timeout(st, Duration::from_millis(200)).unwrap();
+			st = g;
+			if std::time::Instant::now() > deadline {
+				return false;
+			}
+		}
+		true
+	}
+	fn open(&self) {
+		let mut st = self.st.lock().unwrap();
+		st.permits = usize::MAX / 2;
+		self.cv.notify_all();
+	}
+}
+struct GatedDecoder {
+	gate: std::sync::Arc<DGate>,
+	pos: usize,
+	n: usize,
+}
+impl kira::sound::streaming::Decoder for GatedDecoder {
+	type Error = String;
+	fn sample_rate(&self) -> u32 {
+		SR
+	}
+	fn num_frames(&self) -> usize {
+		self.n
+	}
+	fn decode(&mut self) -> Result<Vec<Frame>, String> {
+		{
+			let mut st = self.gate.st.lock().unwrap();
+			while st.permits == 0 {
+				st.parked = true;
+				self.gate.cv.notify_all();
+				st = self.gate.cv.wait(st).unwrap();
+			}
+			st.permits -= 1;
+			st.parked = false;
+		}
+		let v = vec![indexed_frame(self.pos)];
+		self.pos += 1;
+		Ok(v)
+	}
+	fn seek(&mut self, index: usize) -> Result<usize, String> {
+		self.pos = index.min(self.n - 1);
+		Ok(self.pos)
+	}
+}
+
+#[derive(Clone, Copy, Debug, PartialEq, Eq)]
+enum DCmd {
+	/// set_loop_region, in frames; (0, 0): none
+	Loop(i64, i64),
+	/// seek_to this frame
+	To(i64),
+	/// seek_by this many frames
+	By(i64),
+}
+impl DCmd {
+	fn kind(&self) -> usize {
+		match self {
+			DCmd::Loop(..) => 0,
+			DCmd::By(_) => 1,
+			DCmd::To(_) => 2,
+		}
+	}
+}
+const D_NF: usize = 150000;
+const D_TAIL: usize = 12;
+fn samples_region(a: i64, b: i64) -> kira::sound::Region {
+	kira::sound::Region { start: kira::sound::PlaybackPosition::Samples(a as usize), end: kira::sound::EndPosition::Custom(kira::sound::PlaybackPosition::Samples(b as usize)) }
+}
+/// runs the real decoder: `pre` command-free steps complete and one more is parked after its look for
+/// commands; then the groups of commands, one decoder step after each group; then enough steps for the
+/// tail.  Returns the indices heard, or None if the machine was too busy to pace the decoder.
+fn run_decoder(pos0: i64, loop0: Option<(i64, i64)>, pre: usize, groups: &[Vec<DCmd>]) -> Option<Vec<i64>> {
+	let gate = std::sync::Arc::new(DGate { st: std::sync::Mutex::new(DGateSt { permits: 0, parked: false }), cv: std::sync::Condvar::new() });
+	let mut mgr = simple_manager(SR, IBS);
+	let mut data = kira::sound::streaming::StreamingSoundData::from_decoder(GatedDecoder { gate: gate.clone(), pos: 0, n: D_NF }).start_position(kira::sound::PlaybackPosition::Samples(pos0 as usize));
+	if let Some((a, b)) = loop0 {
+		data = data.loop_region(samples_region(a, b));
+	}
+	let mut h = mgr.play(data).unwrap();
+	let mut ok = gate.grant_and_wait(0) && gate.grant_and_wait(pre);
+	let base = h.position();
+	for (i, g) in groups.iter().enumerate() {
+		for c in g {
+			match *c {
+				DCmd::Loop(a, b) => {
+					if b > a {
+						h.set_loop_region(samples_region(a, b))
+					} else {
+						h.set_loop_region(None::<kira::sound::Region>)
+					}
+				}
+				DCmd::To(p) => h.seek_to(p as f64 / SR as f64),
+				DCmd::By(d) => h.seek_by(d as f64 / SR as f64),
+			}
+		}
+		if i + 1 < groups.len() {
+			ok = ok && gate.grant_and_wait(1);
+		}
+	}
+	// (a step that seeks decodes from the requested index up to the wrapped one: several `decode()`
+	// calls; a step whose frame is the one decoded last needs none: permits are not steps, so the
+	// tail gets plenty and only a prefix of what comes out is compared)
+	ok = ok && gate.grant_and_wait(D_TAIL + 80);
+	let _ = base;
+	let mut heard = vec![];
+	if ok {
+		let total = pre + groups.len() + D_TAIL + 4;
+		let out = mgr.backend_mut().callback(total.div_ceil(IBS) * IBS, 2);
+		for fr in out.chunks(2) {
+			if fr[0] == 0.0 {
+				break;
+			}
+			heard.push((fr[0] * 65536.0).round() as i64 - 1);
+		}
+	}
+	gate.open();
+	drop(h);
+	drop(mgr);
+	if ok {
+		Some(heard)
+	} else {
+		None
+	}
+}
+/// the mirror: the indices pushed by `pre + 1` command-free steps, then one step per group, then the tail
+fn mirror_decoder(pos0: i64, loop0: Option<(i64, i64)>, pre: usize, groups: &[Vec<DCmd>], tail: usize) -> Vec<i64> {
+	let mut tr = Tr::new(pos0, loop0);
+	let mut seq = vec![];
+	for _ in 0..pre + 1 {
+		seq.push(tr.pos);
+		tr.inc();
+	}
+	for g in groups {
+		if let Some(DCmd::Loop(a, b)) = g.iter().rev().find(|c| c.kind() == 0) {
+			tr.set_loop(Some((*a, *b)));
+		}
+		if let Some(DCmd::By(d)) = g.iter().rev().find(|c| c.kind() == 1) {
+			// round((shared.position() + amount) * sample_rate), shared.position() = start position
+			let target = ((pos0 as f64 / SR as f64 + *d as f64 / SR as f64) * SR as f64).round() as i64;
+			tr.seek(target);
+		}
+		if let Some(DCmd::To(p)) = g.iter().rev().find(|c| c.kind() == 2) {
+			tr.seek(((*p as f64 / SR as f64) * SR as f64).round() as i64);
+		}
+		seq.push(tr.pos);
+		tr.inc();
+	}
+	for _ in 0..tail {
+		seq.push(tr.pos);
+		tr.inc();
+	}
+	seq
+}
+fn dec_term(pos0: i64, loop0: Option<(i64, i64)>, pre: usize, groups: &[Vec<DCmd>], tail: usize) -> String {
+	let mut ops: Vec<String> = vec![];
+	for _ in 0..pre + 1 {
+		ops.push("((-1), 0, 0)".into());
+	}
+	for g in groups {
+		for c in g {
+			ops.push(match *c {
+				DCmd::Loop(a, b) => format!("(0, {a}, {b})"),
+				DCmd::By(d) => format!("(1, {}, 0)", pos0 + d),
+				DCmd::To(p) => format!("(2, {p}, 0)"),
+			});
+		}
+		ops.push("((-1), 0, 0)".into());
+	}
+	for _ in 0..tail {
+		ops.push("((-1), 0, 0)".into());
+	}
+	let (a, b) = loop0.unwrap_or((0, 0));
+	format!("CDec {} {} {} {} [{}]", D_NF, pos0, a, b, ops.join("; "))
+}
+
+fn part_d(s: &mut Session, args: &Args) {
+	let items = [DCmd::Loop(0, 0), DCmd::Loop(1, 3), DCmd::Loop(4, 9), DCmd::Loop(10, 14), DCmd::To(5), DCmd::By(7)];
+	let mut sets: Vec<Vec<DCmd>> = vec![];
+	for a in items {
+		sets.push(vec![a]);
+		for b in items {
+			if b == a {
+				continue;
+			}
+			sets.push(vec![a, b]);
+			for c in items {
+				if c != a && c != b {
+					sets.push(vec![a, b, c]);
+				}
+			}
+		}
+	}
+	let mut worlds: Vec<(i64, Option<(i64, i64)>, usize)> = vec![(0, Some((0, 2)), 0), (0, Some((0, 2)), 1), (3, Some((2, 6)), 4), (0, None, 1)];
+	if args.thorough {
+		worlds.extend_from_slice(&[(3, Some((0, 2)), 1), (0, Some((2, 6)), 4), (8, Some((2, 6)), 0), (6, None, 3)]);
+	}
+	for (pos0, loop0, pre) in worlds {
+		for set in &sets {
+			let desc = format!(
+				"streaming sound over a decoder paced from outside, {D_NF} frames at {SR} Hz, start frame {pos0}, loop region (frames) {:?}; {} decoder steps, then while the decoder is parked inside a step: {:?} (frames), then decoder steps; no audio callback before the end",
+				loop0,
+				pre + 1,
+				set
+			);
+			let joint = run_decoder(pos0, loop0, pre, &[set.clone()]);
+			// the twin: one kind per decoder step, in the order of DecodeScheduler::run
+			let mut groups: Vec<Vec<DCmd>> = vec![];
+			for k in 0..3 {
+				let g: Vec<DCmd> = set.iter().copied().filter(|c| c.kind() == k).collect();
+				if !g.is_empty() {
+					groups.push(g);
+				}
+			}
+			let twin = run_decoder(pos0, loop0, pre, &groups);
+			let (Some(joint), Some(twin)) = (joint, twin) else {
+				s.count("d_skipped_decoder_too_slow");
+				continue;
+			};
+			let n = pre + 2 + D_TAIL;
+			let want = mirror_decoder(pos0, loop0, pre, &[set.clone()], D_TAIL);
+			let want_twin = mirror_decoder(pos0, loop0, pre, &groups, D_TAIL);
+			if joint.len() < n || twin.len() < pre + 1 + groups.len() + D_TAIL {
+				s.fail(desc.clone(), format!("D: only {} / {} frames came out (expected at least {n}): heard {:?}", joint.len(), twin.len(), joint), None);
+				continue;
+			}
+			if joint[..n] != want[..] {
+				s.fail(
+					desc.clone(),
+					format!("D-mirror: source frames heard {:?}; the step that finds the commands applies the last set_loop_region, then the last seek_by, then the last seek_to (wrapped into the region then in force), which gives {:?}", &joint[..n], want),
+					None,
+				);
+			}
+			let tn = pre + 1 + groups.len() + D_TAIL;
+			// a step that pushes the very frame the previous step decoded calls `decode()` not at all and
+			// the pacing by permits lets one more (command-free) step through: the twin is then not the
+			// run described; decided on the prediction
+			if (pre + 1..pre + 1 + groups.len()).any(|i| want_twin[i] == want_twin[i - 1]) && groups.len() > 1 {
+				s.count("d_twin_not_paced_same_frame_twice");
+				let obs: Vec<i128> = joint[..n].iter().map(|x| *x as i128).collect();
+				let term = dec_term(pos0, loop0, pre, &[set.clone()], D_TAIL);
+				s.case("d_decoder_one_step", term.clone(), &obs, Some(format!("d:{term}")));
+				continue;
+			}
+			if twin[..tn] != want_twin[..] {
+				s.fail(desc.clone(), format!("D-mirror (commands handed over one kind per decoder step {:?}): heard {:?}, expected {:?}", groups, &twin[..tn], want_twin), None);
+			}
+			// tails from the step of the last command on
+			let jt = &joint[pre + 1..n];
+			let tt = &twin[pre + groups.len()..tn];
+			if jt != tt && want[pre + 1..] == want_twin[pre + groups.len()..] {
+				s.fail(desc.clone(), format!("D-twin: after the commands the decoder continues with {:?}; with the same commands handed over one kind per decoder step, in the order of DecodeScheduler::run, it continues with {:?}", jt, tt), None);
+			}
+			let obs: Vec<i128> = joint[..n].iter().map(|x| *x as i128).collect();
+			let term = dec_term(pos0, loop0, pre, &[set.clone()], D_TAIL);
+			s.case("d_decoder_one_step", term.clone(), &obs, Some(format!("d:{term}")));
 		}
 	}
 }
